@@ -93,6 +93,13 @@ func hashExpressionKey(s string) string {
 	return strings.Join(strings.Fields(s), " ")
 }
 
+// HasMatcher tells whether a matcher is registered for the table, kind and expression
+func (ni *Native) HasMatcher(tablename string, kind ExpressionType, expression string) bool {
+	_, err := ni.getMatcher(tablename, expression, kind)
+
+	return err == nil
+}
+
 // registrationKey identifies a registration; the length of the table name keeps
 // (table, expression) pairs apart whatever characters the two strings hold
 func registrationKey(tablename, expression string) string {
